@@ -1576,6 +1576,21 @@ class Module(ABC):
         self.base.debug_states["child_inds"] = self.base._child_inds
         self.base.debug_states["par_inds"] = self.base._par_inds
 
+    def _edges_in_view_with_state(self, state: str) -> np.ndarray:
+        """Return the synapses in view which are of the type that has `state`.
+
+        A view can contain synapses of several types, but a synaptic state (or current)
+        belongs to one of them."""
+        synapse_types = [
+            synapse._name
+            for synapse in self.base.synapses
+            if synapse is not None
+            and (state in synapse.synapse_states or state == f"i_{synapse._name}")
+        ]
+        in_view = self._edges_in_view
+        has_state = self.base.edges.loc[in_view, "type"].isin(synapse_types)
+        return in_view[has_state.to_numpy()]
+
     def record(self, state: str = "v", verbose=True):
         comp_states, edge_states = self._get_state_names()
         if state not in comp_states + edge_states:
@@ -1584,15 +1599,7 @@ class Module(ABC):
             in_view = self._nodes_in_view
         else:
             # Only synapses of the type which has this state (or current) can be recorded.
-            synapse_types = [
-                synapse._name
-                for synapse in self.base.synapses
-                if synapse is not None
-                and (state in synapse.synapse_states or state == f"i_{synapse._name}")
-            ]
-            in_view = self._edges_in_view
-            has_state = self.base.edges.loc[in_view, "type"].isin(synapse_types)
-            in_view = in_view[has_state.to_numpy()]
+            in_view = self._edges_in_view_with_state(state)
 
         new_recs = pd.DataFrame(in_view, columns=["rec_index"])
         new_recs["state"] = state
@@ -1673,9 +1680,13 @@ class Module(ABC):
             raise KeyError(f"{key} is not a recognized state in this module.")
         values = values if values.ndim == 2 else jnp.expand_dims(values, axis=0)
         batch_size = values.shape[0]
-        num_inserted = (
-            len(self._nodes_in_view) if key in comp_states else len(self._edges_in_view)
+        # Only synapses of the type which has this state can be clamped.
+        inds_in_view = (
+            self._nodes_in_view
+            if key in comp_states
+            else self._edges_in_view_with_state(key)
         )
+        num_inserted = len(inds_in_view)
         is_multiple = num_inserted == batch_size
         values = values if is_multiple else jnp.repeat(values, num_inserted, axis=0)
         assert batch_size in [
@@ -1683,7 +1694,6 @@ class Module(ABC):
             num_inserted,
         ], "Number of comps and stimuli do not match."
 
-        inds_in_view = self._nodes_in_view if key in comp_states else self._edges_in_view
         if key in self.base.externals.keys():
             self.base.externals[key] = jnp.concatenate(
                 [self.base.externals[key], values]
@@ -1736,7 +1746,11 @@ class Module(ABC):
         comp_states, edge_states = self._get_state_names()
         if state_name not in comp_states + edge_states:
             raise KeyError(f"{state_name} is not a recognized state in this module.")
-        data = self.nodes if state_name in comp_states else self.edges
+        if state_name in comp_states:
+            data = self.nodes
+        else:
+            # Only synapses of the type which has this state can be clamped.
+            data = self.edges.loc[self._edges_in_view_with_state(state_name)]
         return self._data_external_input(
             state_name, state_array, data_clamps, data, verbose=verbose
         )
@@ -1756,11 +1770,7 @@ class Module(ABC):
             else jnp.expand_dims(state_array, axis=0)
         )
         batch_size = state_array.shape[0]
-        num_inserted = (
-            len(self._nodes_in_view)
-            if state_name in comp_states
-            else len(self._edges_in_view)
-        )
+        num_inserted = len(view)
         is_multiple = num_inserted == batch_size
         state_array = (
             state_array
